@@ -189,7 +189,11 @@ pub fn monitor(c: &Cfg, r: &crate::run::Run, n: usize, has_terminal: bool, viols
                     if terminal_recorded {
                         v("terminal-not-reported", format!("terminal event recorded but status {:?}", other));
                     }
-                    if c.t_eval.is_none() && covered_by_samples && s.t.len() > 1 {
+                    // a run that ran out of its step budget one rounding error before xend truthfully
+                    // needs one more (tiny) step: only exact coverage contradicts NeedLargerNMax
+                    let exact = last.map(|t| t.to_bits() == c.xend.to_bits()).unwrap_or(false) && (far_end.to_bits() == c.xend.to_bits());
+                    let covered = if other == Status::NeedLargerNMax { exact } else { covered_by_samples };
+                    if c.t_eval.is_none() && covered && s.t.len() > 1 {
                         v("covered-not-success", format!("the last sample is xend but status is {:?}", other));
                     }
                 }
@@ -220,6 +224,7 @@ pub fn run_check(replay: Option<Value>) -> i32 {
         dim("events", &evs),
         dim("problem", &["decay(unscaled)", "oscillator", "nonautonomous", "starts-at-rest"]),
         dim("rtol", &tols),
+        dim("max_steps", &["none", "4"]),
     ];
     lattice(&mut rep, "c03", &dims, only.as_deref(), |key, idx| {
         let m = M6[idx[0]];
@@ -271,6 +276,9 @@ pub fn run_check(replay: Option<Value>) -> i32 {
             Ev::Terminal => vec![EventSpec::new(EvKind::Y(0, 0.5)), EventSpec::new(EvKind::T(x0 + dir * 0.61 * nominal)).term(1)],
         };
         c.budget = 3_000_000;
+        if idx[11] == 1 {
+            c.max_steps = Some(4);
+        }
         let r = run(&p, &c);
         let mut out = CaseOut::default();
         let mut vs = vec![];
@@ -334,6 +342,7 @@ pub fn run_check(replay: Option<Value>) -> i32 {
     }
     rep.rule = "full product of the lattice minus combinations excluded by the stated validity predicate (span >= 1e4 ulp(x0); infinite xend only with a terminal event that fires; RK4 with infinite span needs first_step); monitor: start at x0, strict monotonicity, never beyond xend, Success <=> covered, UserInterrupt <=> terminal event recorded, every ode/events/jac call time inside [x0,xend] (slack 8 ulp (1+n/64)), shapes, finiteness; non-trivial = at least one RHS call; distinct = distinct RHS-call fingerprints x outcome x output options".into();
     rep.assumptions.push("whether a terminal event fires is judged from the computed trajectory (a recorded event), not from the exact solution".into());
+    rep.assumptions.push("NeedLargerNMax one rounding error before xend is truthful (one more tiny step is needed); only exact coverage of xend contradicts it".into());
     rep.assumptions.push("StepSizeTooSmall and similar outcomes are legitimate and only oblige a well-formed prefix; Err(Config(InvalidStepSize)) is accepted only for RK4's documented sign rule".into());
     rep.finish()
 }
